@@ -147,6 +147,9 @@ def regen(kind, outfile):
     tmp = os.path.join(COQ, "Gen", "." + outfile + ".new")
     rc, out, err = sh([RS2V, kind, REPO, tmp])
     if rc != 0:
+        # the stale model must not be mistaken for the current source: everything that depends on
+        # this file stops building until the translation succeeds again
+        write_if_changed(os.path.join(COQ, "Gen", outfile), "(* rs2v " + kind + " could not translate the current source *)\nTranslation_failed.\n")
         return False, (err or out)[-2000:]
     with open(tmp) as f:
         text = f.read()
@@ -207,7 +210,7 @@ def prove(run, pid, extra_targets=()):
     # every generated file is brought up to date with /repo first, so that the proofs are always
     # checked against what the code says NOW, whatever ran before
     build_translator()
-    for kind, outfile in (("treemath", "TreeMathGen.v"), ("codec", "CodecTypes.v"), ("effects", "ProcessEffects.v"), ("window", "WindowGen.v")):
+    for kind, outfile in (("treemath", "TreeMathGen.v"), ("codec", "CodecTypes.v"), ("effects", "ProcessEffects.v"), ("window", "WindowGen.v"), ("kem", "KemGen.v")):
         okg, msg = regen(kind, outfile)
         if not okg:
             run.notes.append(f"translation ({kind}) failed: {msg[-300:]}")
